@@ -78,6 +78,9 @@ mod params;
 mod parse;
 mod pearson;
 
+#[cfg(fast_tlsh_verif)]
+pub mod verif;
+
 // Easy function re-exports
 #[cfg(feature = "easy-functions")]
 pub use compare_easy::{compare, compare_with};
